@@ -47,6 +47,10 @@ def run_case(c):
             kw.update(first_parameter=c["lam"], second_parameter=c["mu"])
         r = LOSSES[c["fn"]](u, **kw)
         return {"val": flat(r), "shape": list(r.shape)}
+    if k == "bsloss":
+        u = field(c["u"])
+        r = L.bending_loss(u, mode="bspline", stride=tuple(c["stride"]), spacing=c["spacing"], reduction=c["reduction"])
+        return {"val": flat(r), "shape": list(r.shape)}
     if k == "lame":
         lam, mu = L.lame_parameters(**{PAIRS[n]: v for n, v in c["args"].items()})
         return {"val": [float(lam), float(mu)]}
@@ -337,7 +341,7 @@ def oracle_spacing(rng, n, R):
                             div *= spacing["xyz".index(ch)]
                         if not close(a[k], b[k] / div, 1e-9):
                             R.fail(f"C17:flow_derivatives:{mname}:spacing-divisor",
-                                   f"{k} with spacing {spacing} is not {k} with unit spacing divided by {div:g}", key=k, **base)
+                                   f"{k} with spacing {spacing} is not {k} with unit spacing divided by {div:g}", deriv=k, **base)
                 # fields varying along a single axis a: loss(spacing = s) = loss(spacing = 1) / s[a]^k
                 for ax in range(D):
                     x = coords(size)
